@@ -191,7 +191,12 @@ func (g *gen) traversal() string {
 	s := g.ident()
 	n := g.r.Intn(4)
 	for i := 0; i < n; i++ {
-		switch g.r.Intn(8) {
+		switch g.r.Intn(9) {
+		case 8:
+			// an index written as any kind of number-like literal (what the scanner takes for a
+			// number is not always one), now and then without its closing bracket
+			key := g.pick(g.number(), "1.2.3", "1..2", "1e2e3", "1e", "1.", "0x1F", "1_000", "07", "1.5", "-1", "1e400", "99999999999999999999")
+			s += "[" + key + g.pick("]", "]", "]", "", " .", " ]")
 		case 0:
 			s += "[" + fmt.Sprint(g.r.Intn(4)) + "]"
 		case 1:
@@ -511,6 +516,10 @@ func (g *gen) jsonObject(depth int) string {
 }
 
 func (g *gen) jsonDoc() string {
+	if g.chance(0.06) {
+		// a file saved with a byte order mark
+		return "\xef\xbb\xbf" + g.jsonObject(0) + g.jws()
+	}
 	if g.chance(0.1) {
 		return "[" + g.jsonObject(0) + "," + g.jsonObject(0) + "]"
 	}
